@@ -15,6 +15,11 @@ func (m *Model) Layout()
   exit assert C19_lastline: len(l.characters) == 0 || (len(m.lines) > 0 && m.lines[len(m.lines)-1] == l)
   loop 1 invariant lnn: l != nil && LinesOK(m)
   loop 2 invariant lnn: l != nil && LinesOK(m)
+  -- the running column belongs to the line under construction: it is at least the width of every cell already on that
+  -- line (false as soon as the counter is reset while the line is kept, e.g. at a segment boundary)
+  cut "cell := vaxis.Cell{" assume wpos: char.Width >= 0 -- display widths are never negative (uniseg / runewidth)
+  loop 1 invariant C19_col: col >= 0 && (forall k in 0..len(l.characters): 0 <= l.characters[k].Width && l.characters[k].Width <= col)
+  loop 2 invariant C19_col: col >= 0 && (forall k in 0..len(l.characters): 0 <= l.characters[k].Width && l.characters[k].Width <= col)
 
 -- Draw clamps the scroll offset to the content and never panics for any window size.
 func (m *Model) Draw(win vaxis.Window)
